@@ -13,12 +13,13 @@ PID = "C10"
 LEAN_MODULE = "NiVerif.Props.C10"
 NAMESPACE = "Props.C10"
 DRIVER = "drivers/Wfm.lean"
-GEN_MODULES = ["ExtProps"]
+GEN_MODULES = ["ExtProps", "AppendTiming"]
 EXTRA_LEAN_MODULES = ["NiVerif.Model.WfmProto", "NiVerif.Props.ExtProps"]
 THEOREMS = ["appendTiming_rules", "foldTiming_rules", "mergeProps_lookup", "mergeProps_prefix", "copyAll_props",
             "foldTiming_warn_kind", "appendWaveforms_unfold", "append_rules", "append_refusals",
             "array_needs_timestamps_iff_irregular",
-            "gen_merge_lookup", "gen_merge_prefix", "gen_merge_fold", "Props.ExtProps.gen_merge_eq_model", "Props.ExtProps.gen_merge_notifies_iff"]
+            "gen_merge_lookup", "gen_merge_prefix", "gen_merge_fold", "Props.ExtProps.gen_merge_eq_model", "Props.ExtProps.gen_merge_notifies_iff",
+            "gen_append_timing_eq_model", "gen_append_timestamps_eq_model"]
 RULE = ("the whole matrix receiver mode (NONE/REGULAR/IRREGULAR) x source mode x interval equal/different x scale mode "
         "equal/different x property keys (disjoint / overlapping / conflicting / NI_LineNames) x one or several sources x "
         "dtype / signal-count match or mismatch x owned or borrowed (full) receiver buffer, for Analog / Complex / "
